@@ -414,8 +414,96 @@ def queries_release(ctx):
         "catalogue": {k: len(v) for k, v in cat.items()}, "wall_s": round(time.time() - t0, 1)}
 
 
+# ---------------------------------------------------------------------------
+# no loss while referenced, across (re)configurations of the reader: sessions of set_io_objects (partial arguments, user
+# classes, the base class passed explicitly) / clear_io_objects / read_pil (documents over ONE small name space, so that a
+# later document re-declares the names of an earlier one) / direct constructions / drops, results held by the user;
+# stated on the implementation after every step (harness/oracles/c05_sessions.py)
+def _session_doc(rng):
+    doms = rng.sample("abc", rng.randrange(1, 4))
+    L = [f"length {d} = {rng.choice([5, 7, 10])}" for d in doms]
+    names = rng.sample(["X", "Y", "Z"], rng.randrange(1, 4))
+    for n in names:
+        p, q = rng.choice(doms), rng.choice(doms)
+        L.append(n + " = " + rng.choice(["{p} {q}", "{p}( {q} + )", "{p}( + ) {q}", "{p}( {q}( + ) )", "{q}* {p}", "{p}"]).format(p=p, q=q))
+    if rng.random() < 0.3:
+        L.insert(len(doms), f"strand s = {rng.choice(doms)} {rng.choice(doms)}")
+    if rng.random() < 0.4:
+        L += [f"state {n} = [{n}]" for n in names[:2]]
+        if len(names) >= 2 and rng.random() < 0.5:
+            L.append(f"reaction [condensed = 1 /s] {names[0]} -> {names[1]}")
+    elif len(names) >= 2 and rng.random() < 0.5:
+        L.append(f"reaction [{rng.choice(['open', 'bind21', 'branch-3way'])} = 3 /M/s] {names[0]} -> {names[1]}")
+    return "\n".join(L) + "\n"
+
+
+def _session(rng):
+    nsub = {"D": 3, "S": 2, "C": 3, "M": 2, "R": 2}
+    steps = [["set", {}]] if rng.random() < 0.7 else []
+    for _ in range(rng.randrange(2, 9)):
+        x = rng.random()
+        if x < 0.35:
+            steps.append(["set", {k: rng.randrange(n) for k, n in nsub.items() if rng.random() < 0.35}])
+        elif x < 0.45:
+            steps.append(["clear"])
+        elif x < 0.8:
+            if not any(s[0] == "set" for s in steps):
+                steps.append(["set", {}])
+            steps.append(["read", _session_doc(rng), rng.random() < 0.8])
+        elif x < 0.92:
+            steps.append(["make", rng.randrange(3), rng.randrange(3), rng.choice("abc"), rng.choice([5, 7, 10]), rng.choice(["X", "Y", "K"])])
+        else:
+            steps.append(["drop", rng.randrange(4)])
+    return steps
+
+
+def _sessions_run(sessions):
+    from common import run_oracle
+    return run_oracle("c05_sessions.py", {"sessions": sessions})["results"]
+
+
+def _session_shrink(steps, rounds=10):
+    for _ in range(rounds):
+        cands = [steps[:k] + steps[k + 1:] for k in range(len(steps))]
+        cands += [steps[:k] + [["set", {s: c for s, c in st[1].items() if s != drop}]] + steps[k + 1:]
+                  for k, st in enumerate(steps) if st[0] == "set" for drop in st[1]]
+        best = next((c for c, r in zip(cands, _sessions_run(cands)) if r), None) if cands else None
+        if best is None:
+            break
+        steps = best
+    return steps
+
+
+def reader_sessions(ctx):
+    """objects the user holds stay the singletons of their names and canonical forms across every reader (re)configuration"""
+    import time
+    t0 = time.time()
+    rng = ctx.rng
+    sessions = [_session(rng) for _ in range(150 if ctx.tier == "quick" else 4000)]
+    bad, reported = 0, set()
+    for s, r in zip(sessions, _sessions_run(sessions)):
+        if not r:
+            continue
+        bad += 1
+        if len(reported) >= 3:
+            continue
+        small = _session_shrink(s)
+        r2 = _sessions_run([small])[0] or r
+        key = {"reader_session": [st[0] for st in small], "what": r2["what"].split(":")[0].split(") ")[-1][:60]}
+        if repr(key) in reported:
+            continue
+        reported.add(repr(key))
+        ctx.violation("counterexample", {"key": key, "input": {"reader_session": small}, "what": r2["what"], "snippet": r2["snippet"]})
+    ctx.add_eval(len(sessions), len(sessions))
+    ctx.cov["correspondence"]["held-across-reader-reconfiguration(impl)"] = {
+        "sessions": len(sessions), "steps": sum(len(s) for s in sessions),
+        "reconfigurations_without_clear": sum(1 for s in sessions for a, b in zip(s, s[1:]) if b[0] == "set" and a[0] != "clear"),
+        "failures": bad, "wall_s": round(time.time() - t0, 1)}
+
+
 def run(ctx):
     reader_release(ctx)
+    reader_sessions(ctx)
     containers_while_rotating(ctx)
     queries_release(ctx)
     # sessions of the reader: configured classes, results held across clear_io_objects (stated on the implementation)
@@ -439,6 +527,10 @@ def replay(data):
         r = run_impl([("c05_query_release", inp["query_release"])])[0]
         print(r)
         return 1 if _qr_bad(r) else 0
+    if isinstance(inp, dict) and "reader_session" in inp:
+        r = _sessions_run([inp["reader_session"]])[0]
+        print(r["what"] if r else None)
+        return 1 if r else 0
     if isinstance(inp, list) and inp and isinstance(inp[0], str):
         print("steps of harness/oracles/c15_extra.py:", inp)
         return 1
